@@ -41,7 +41,7 @@ def run(ctx):
     seen_txt = tables.load('seen_rules.ja')
     pairs += [(Category.parse(a), Category.parse(b)) for a, b in (seen_txt if ctx.thorough else rng.sample(seen_txt, 800))]
     pairs += [(x, y) for x, y, _ in G.rule_triples('ja')]
-    pairs += [(x, y) for _, _, x, y in G.pattern_pairs(rng, G.JA_PATTERNS, pool, feats, ctx.budget(15000, 100000))]
+    pairs += [(x, y) for _, _, x, y in G.pattern_pairs(rng, G.JA_PATTERNS, pool, feats, ctx.budget(15000, 100000), deep=gen_cat.deep_pool('ja', rng))]
     rootcats = list(ja._possible_root_categories)
     pairs += [(rng.choice(rootcats), rng.choice(rootcats)) for _ in range(200)]
     pairs += [(rng.choice(rootcats), rng.choice(inv)) for _ in range(200)]
